@@ -1,25 +1,18 @@
----------------------------------- MODULE MC_C11 ----------------------------------
-(* Bounded universe for C11 (assign).  Init picks a target (spine of container levels  *)
-(* of every class with shared / empty side entries and scalar, empty-container or        *)
-(* immutable leaves); Choose picks the rest of the case: a destination path whose prefix *)
-(* exists or stops existing at every segment in every addressing style, the value         *)
-(* (literal / Spec / T / the target itself), missing= (none / dict / list / object         *)
-(* factory, raising on its k-th call) and the fault flags.                                *)
-(*   MC_C11.cfg        NEXT Next      : the machine GlomMutate, one action per step, laws   *)
-(*                                     checked in every intermediate state                 *)
-(*   MC_C11_cases.cfg  NEXT NextCases : every case run to its end in one step; the dumped    *)
-(*                                     states (case, exp, out, heap, log) are replayed into  *)
-(*                                     the real library                                     *)
-(* by hand: tlc -config MC_C11.cfg MC_C11.tla needs the CONSTANTS of harness/c11.py TIERS.   *)
+---------------------------------- MODULE MC_C12 ----------------------------------
+(* Bounded universe for C12 (delete).  Init picks a target (as MC_C11); Choose picks a    *)
+(* path in every addressing style whose parent or final element is present or absent at   *)
+(* every position, ignore_missing, and the deletion fault (a cell whose __delitem__ /       *)
+(* __delattr__ raises, a read-only property, immutable cells are part of the targets).      *)
+(*   MC_C12.cfg        NEXT Next      : the machine GlomMutate (FetchParent.. -> Del),        *)
+(*                                     laws checked in every intermediate state              *)
+(*   MC_C12_cases.cfg  NEXT NextCases : every case run to its end in one step, dumped for     *)
+(*                                     the replay into the real library                      *)
 EXTENDS GlomMutate
 
-CONSTANTS MaxSpine,       \* nested container levels (0 = scalar / leaf root)
-          LevelClasses,   \* subset of {"dict", "idict", "list", "tuple", "obj"}
-          LeafOpts,       \* subset of {"none", "int", "str", "edict", "elist", "fset"}
-          SideOpts,       \* subset of {"absent", "none", "shared", "empty"}
+CONSTANTS MaxSpine, LevelClasses, LeafOpts, SideOpts,
           Alpha,          \* "small" | "full": step alphabet for paths of length <= 2
           Alpha3,         \* "none" | "p" | "small": alphabet for paths of length 3
-          Profiles        \* subset of {"plain", "vals", "miss", "missval", "missflag", "star"}
+          Stars           \* "no" | "also" | "only": paths with the wildcard '*' among the parent segments
 
 VARIABLE exp             \* what the law expects for the case (Ref(case))
 vars == <<mvars, exp>>
@@ -52,10 +45,12 @@ Root(levels, leaf) == LET n == Len(levels) IN
 SmallParent == {Step("P", VStr("a")), Step("P", VStr("x")), Step("P", VStr("0")),
                 Step("[", VStr("a")), Step("[", VStr("x")), Step("[", VInt(0)),
                 Step(".", VStr("a")), Step(".", VStr("x"))}
-SmallFinal == SmallParent \cup {Step("P", VStr("5")), Step("[", VInt(5)), Step("[", VInt(-1)), Step(".", VStr("r"))}
+SmallFinal == SmallParent \cup {Step("P", VStr("5")), Step("[", VInt(5)), Step("[", VInt(-1)), Step(".", VStr("r")),
+                                Step("P", VStr("b")), Step("[", VInt(1))}
 FullParent == SmallParent \cup {Step("P", VStr("5")), Step("[", VInt(5)), Step("P", VInt(0)), Step("P", VStr("-1")),
                                 Step("[", VInt(1)), Step("P", VStr("b"))}
-FullFinal == FullParent \cup SmallFinal \cup {Step("[", VStr("b")), Step(".", VStr("b")), Step("P", VStr("1"))}
+FullFinal == FullParent \cup SmallFinal \cup {Step("[", VStr("b")), Step(".", VStr("b")), Step("P", VStr("1")),
+                                              Step("P", VInt(1)), Step("P", VInt(5)), Step("[", VStr("0"))}
 PParent == {Step("P", VStr("a")), Step("P", VStr("x")), Step("P", VStr("0"))}
 PFinal == PParent \cup {Step("P", VStr("5"))}
 
@@ -63,40 +58,21 @@ Parent2 == IF Alpha = "small" THEN SmallParent ELSE FullParent
 Final2 == IF Alpha = "small" THEN SmallFinal ELSE FullFinal
 Parent3 == CASE Alpha3 = "p" -> PParent [] Alpha3 = "small" -> SmallParent [] OTHER -> {}
 Final3 == CASE Alpha3 = "p" -> PFinal [] Alpha3 = "small" -> SmallFinal [] OTHER -> {}
-
 Paths2 == {<<f>> : f \in Final2} \cup {<<p, f>> : p \in Parent2, f \in Final2}
 Paths3 == {<<p, q, f>> : p \in Parent3, q \in Parent3, f \in Final3}
 X == Step("x", VNone)                                   \* the wildcard '*'
 StarPaths == {<<X, f>> : f \in Final2} \cup {<<X, X, f>> : f \in Final2}
              \cup {<<p, X, f>> : p \in Parent2, f \in Final2} \cup {<<X, p, f>> : p \in Parent2, f \in Final2}
-\* three-segment paths (two absent segments, two factory calls) for the profiles with missing=;
-\* for the others only when the target is deep enough to have a parent at depth 2
-PathsFor(prof, h) == IF prof = "star" THEN StarPaths ELSE IF prof \in {"miss", "missval", "missflag"} \/ Len(h) - Extra >= 2 THEN Paths2 \cup Paths3 ELSE Paths2
+PathsFor(h) == (IF Stars = "only" THEN {} ELSE IF Len(h) - Extra >= 2 THEN Paths2 \cup Paths3 ELSE Paths2)
+               \cup (IF Stars = "no" THEN {} ELSE StarPaths)
 
-\* ---- values, missing, faults ---------------------------------------------------------
-Lit(v) == [k |-> "lit", v |-> v, steps |-> <<>>]
-VSpec(steps) == [k |-> "spec", v |-> VNone, steps |-> steps]
-VT(steps) == [k |-> "t", v |-> VNone, steps |-> steps]
-OtherVals == {VT(<<>>), VSpec(<<Step("P", VStr("a"))>>), VSpec(<<Step("P", VStr("0"))>>),
-              VT(<<Step("[", VStr("b"))>>)}
-Miss(m, f) == [m |-> m, f |-> f]
-NoMiss == {Miss("none", 0)}
-Factories == {Miss("dict", f) : f \in 0..2} \cup {Miss("obj", f) : f \in 0..1} \cup {Miss("list", 0)}
-
+\* ---- faults ---------------------------------------------------------------------------
 NoFlags(h) == [a \in 1..Len(h) |-> ""]
-Applicable(cls) == CASE cls \in {"dict", "list"} -> {"wfault"} [] cls = "obj" -> {"wfault", "prop"} [] OTHER -> {}
+Applicable(cls) == CASE cls \in {"dict", "list"} -> {"dfault"} [] cls = "obj" -> {"dfault", "prop"} [] OTHER -> {}
 OneFlag(h) == UNION {{[a \in 1..Len(h) |-> IF a = b THEN f ELSE ""] : f \in Applicable(h[b].cls)} : b \in 1..(Len(h) - Extra)}
 
-ValsFor(prof) == CASE prof = "vals" -> OtherVals
-                   [] prof = "missval" -> {VT(<<>>), VSpec(<<Step("P", VStr("a"))>>), VT(<<Step("[", VStr("b"))>>)}
-                   [] OTHER -> {Lit(VInt(9))}
-MissFor(prof) == CASE prof \in {"plain", "vals", "star"} -> NoMiss [] prof = "miss" -> Factories
-                   [] OTHER -> {Miss("dict", 0)}
-FlagsFor(prof, h) == CASE prof \in {"plain", "star"} -> {NoFlags(h)} \cup OneFlag(h) [] prof = "missflag" -> OneFlag(h)
-                       [] OTHER -> {NoFlags(h)}
-
-Blank == [kind |-> "assign", heap0 |-> <<>>, flags |-> <<>>, root |-> VNone, steps |-> <<>>, val |-> Lit(VNone),
-          missing |-> "none", facfail |-> 0, ignore |-> FALSE]
+Blank == [kind |-> "delete", heap0 |-> <<>>, flags |-> <<>>, root |-> VNone, steps |-> <<>>,
+          val |-> [k |-> "lit", v |-> VNone, steps |-> <<>>], missing |-> "none", facfail |-> 0, ignore |-> FALSE]
 
 Init ==
   \E n \in 0..MaxSpine : \E levels \in [1..n -> LevelClasses] : \E leaf \in LeafOpts :
@@ -106,19 +82,15 @@ Init ==
     /\ log = <<>> /\ out = NoOut /\ queue = <<>> /\ exp = Expect(TRUE, "", FALSE, <<>>, VNone)
 
 ForEachCase(Do(_)) ==
-  \E prof \in Profiles : \E steps \in PathsFor(prof, case.heap0) : \E vs \in ValsFor(prof) : \E mk \in MissFor(prof) :
-    \E fl \in FlagsFor(prof, case.heap0) :
-      Do([case EXCEPT !.flags = fl, !.steps = steps, !.val = vs, !.missing = mk.m, !.facfail = mk.f])
+  \E steps \in PathsFor(case.heap0) : \E ig \in BOOLEAN : \E fl \in {NoFlags(case.heap0)} \cup OneFlag(case.heap0) :
+    Do([case EXCEPT !.flags = fl, !.steps = steps, !.ignore = ig])
 
 Choose  == pc = "init" /\ ForEachCase(LAMBDA c : Become(Start(c)) /\ exp' = Ref(c))
 RunCase == pc = "init" /\ ForEachCase(LAMBDA c : Become(RunToEnd(Start(c))) /\ exp' = Ref(c))
 
 \* one disjunct per machine action (named so that TLC's coverage reports each of them)
-A_EvalVal     == EvalVal /\ UNCHANGED exp
 A_FetchParent == FetchParent /\ UNCHANGED exp
-A_FactoryCall == FactoryCall /\ UNCHANGED exp
-A_BuildTail   == BuildTail /\ UNCHANGED exp
-A_Store       == Store /\ UNCHANGED exp
-Next == Choose \/ A_EvalVal \/ A_FetchParent \/ A_FactoryCall \/ A_BuildTail \/ A_Store
+A_Del         == Del /\ UNCHANGED exp
+Next == Choose \/ A_FetchParent \/ A_Del
 NextCases == RunCase
 ====================================================================================
